@@ -33,7 +33,7 @@ A(v) == [t |-> "arr", v |-> v]
 O(m) == [t |-> "obj", m |-> m]
 
 \* characters of the concrete text of each multi-character symbol (cross-checked by the harness against its table)
-SymInfo == [su_max |-> [len |-> 20, hasb |-> FALSE], su_over |-> [len |-> 20, hasb |-> FALSE], du_neg250ms |-> [len |-> 6, hasb |-> FALSE], du_neg1ns |-> [len |-> 4, hasb |-> FALSE], du_neg90m |-> [len |-> 4, hasb |-> FALSE], du_neg1h30m0s |-> [len |-> 8, hasb |-> FALSE], du_zero |-> [len |-> 2, hasb |-> FALSE], du_us |-> [len |-> 5, hasb |-> FALSE], d_1 |-> [len |-> 10, hasb |-> FALSE], d_feb30 |-> [len |-> 10, hasb |-> FALSE], d_short |-> [len |-> 8, hasb |-> FALSE], dt_feb30 |-> [len |-> 20, hasb |-> FALSE], dt_frac |-> [len |-> 22, hasb |-> FALSE], dt_month13 |-> [len |-> 20, hasb |-> FALSE], dt_nozone |-> [len |-> 19, hasb |-> FALSE], dt_off |-> [len |-> 25, hasb |-> FALSE], dt_plus |-> [len |-> 25, hasb |-> FALSE], dt_z |-> [len |-> 20, hasb |-> FALSE], du_1 |-> [len |-> 6, hasb |-> FALSE], du_1h30m0s |-> [len |-> 7, hasb |-> FALSE], du_90m |-> [len |-> 3, hasb |-> FALSE], du_bad |-> [len |-> 2, hasb |-> FALSE], du_frac |-> [len |-> 4, hasb |-> FALSE], ip_1 |-> [len |-> 11, hasb |-> FALSE], ip_256 |-> [len |-> 9, hasb |-> FALSE], si_12 |-> [len |-> 2, hasb |-> FALSE], si_7 |-> [len |-> 1, hasb |-> FALSE], si_big |-> [len |-> 19, hasb |-> FALSE], si_frac |-> [len |-> 3, hasb |-> FALSE], si_neg |-> [len |-> 2, hasb |-> FALSE], t_1 |-> [len |-> 8, hasb |-> FALSE], t_25h |-> [len |-> 8, hasb |-> FALSE], t_frac |-> [len |-> 10, hasb |-> FALSE], u_1 |-> [len |-> 36, hasb |-> TRUE], u_short |-> [len |-> 8, hasb |-> FALSE], u_upper |-> [len |-> 36, hasb |-> FALSE]]
+SymInfo == [sf_2p63 |-> [len |-> 21, hasb |-> FALSE], sf_2p64 |-> [len |-> 22, hasb |-> FALSE], su_max |-> [len |-> 20, hasb |-> FALSE], su_over |-> [len |-> 20, hasb |-> FALSE], du_neg250ms |-> [len |-> 6, hasb |-> FALSE], du_neg1ns |-> [len |-> 4, hasb |-> FALSE], du_neg90m |-> [len |-> 4, hasb |-> FALSE], du_neg1h30m0s |-> [len |-> 8, hasb |-> FALSE], du_zero |-> [len |-> 2, hasb |-> FALSE], du_us |-> [len |-> 5, hasb |-> FALSE], d_1 |-> [len |-> 10, hasb |-> FALSE], d_feb30 |-> [len |-> 10, hasb |-> FALSE], d_short |-> [len |-> 8, hasb |-> FALSE], dt_feb30 |-> [len |-> 20, hasb |-> FALSE], dt_frac |-> [len |-> 22, hasb |-> FALSE], dt_month13 |-> [len |-> 20, hasb |-> FALSE], dt_nozone |-> [len |-> 19, hasb |-> FALSE], dt_off |-> [len |-> 25, hasb |-> FALSE], dt_plus |-> [len |-> 25, hasb |-> FALSE], dt_z |-> [len |-> 20, hasb |-> FALSE], du_1 |-> [len |-> 6, hasb |-> FALSE], du_1h30m0s |-> [len |-> 7, hasb |-> FALSE], du_90m |-> [len |-> 3, hasb |-> FALSE], du_bad |-> [len |-> 2, hasb |-> FALSE], du_frac |-> [len |-> 4, hasb |-> FALSE], ip_1 |-> [len |-> 11, hasb |-> FALSE], ip_256 |-> [len |-> 9, hasb |-> FALSE], si_12 |-> [len |-> 2, hasb |-> FALSE], si_7 |-> [len |-> 1, hasb |-> FALSE], si_big |-> [len |-> 19, hasb |-> FALSE], si_frac |-> [len |-> 3, hasb |-> FALSE], si_neg |-> [len |-> 2, hasb |-> FALSE], t_1 |-> [len |-> 8, hasb |-> FALSE], t_25h |-> [len |-> 8, hasb |-> FALSE], t_frac |-> [len |-> 10, hasb |-> FALSE], u_1 |-> [len |-> 36, hasb |-> TRUE], u_short |-> [len |-> 8, hasb |-> FALSE], u_upper |-> [len |-> 36, hasb |-> FALSE]]
 FmtSyms == DOMAIN SymInfo
 
 \* the three patterns of the fragment, by name (their meaning is C08's business)
@@ -61,8 +61,11 @@ FmtTable == {
   FRow("du_neg1h30m0s", "duration", TRUE, "du_neg1h30m0s"), FRow("du_zero", "duration", TRUE, "du_zero"), FRow("du_us", "duration", TRUE, "du_us"),
 
   FRow("si_12", "uint64", TRUE, "si_12"), FRow("si_big", "uint64", TRUE, "si_big"), FRow("si_7", "uint64", TRUE, "si_7"), FRow("si_frac", "uint64", FALSE, ""), FRow("su_max", "uint64", TRUE, "su_max"), FRow("si_neg", "uint64", FALSE, ""), FRow("su_over", "uint64", FALSE, ""),
+  \* `type: string, format: float64`: the text of a binary64 number; the echo is the shortest text that reads back as the same number
+  FRow("si_12", "float64", TRUE, "si_12"), FRow("si_neg", "float64", TRUE, "si_neg"), FRow("si_7", "float64", TRUE, "si_7"), FRow("si_frac", "float64", TRUE, "si_frac"),
+  FRow("si_big", "float64", TRUE, "sf_2p63"), FRow("su_max", "float64", TRUE, "sf_2p64"), FRow("su_over", "float64", TRUE, "sf_2p64"), FRow("sf_2p63", "float64", TRUE, "sf_2p63"), FRow("sf_2p64", "float64", TRUE, "sf_2p64"),
   FRow("si_12", "int64", TRUE, "si_12"), FRow("si_neg", "int64", TRUE, "si_neg"), FRow("si_7", "int64", TRUE, "si_7"), FRow("du_1h30m0s", "duration", TRUE, "du_1h30m0s"), FRow("si_frac", "int64", FALSE, ""), FRow("si_big", "int64", FALSE, "")}
-StrFormats == {"date-time", "date", "time", "uuid", "ipv4", "duration", "int64", "uint64"}
+StrFormats == {"date-time", "date", "time", "uuid", "ipv4", "duration", "int64", "uint64", "float64"}
 IntFormats == {"unix-seconds", "unix-milli", "int32", "int64"}
 FmtOK(name, sym) == \E r \in FmtTable : r.sym = sym /\ r.fmt = name /\ r.ok
 FmtEcho(name, sym) == (CHOOSE r \in FmtTable : r.sym = sym /\ r.fmt = name /\ r.ok).echo
@@ -264,7 +267,12 @@ ObjSchemas == {Obj(<<PA, PBo>>, AT, 0, NONE), Obj(<<PA, PBo>>, AF, 0, NONE), Obj
                Obj(<<P("a", Nullable(Arr(AnyStr, 1, 2, FALSE)), FALSE)>>, AF, 0, NONE),
                Nullable(Obj(<<>>, AF, 0, NONE)), Obj(<<P("a", Nullable(Obj(<<>>, AT, 0, 2)), FALSE)>>, AT, 0, NONE),
                \* recursion: a list node
-               Obj(<<P("a", AnyInt, TRUE), P("c", Self, FALSE)>>, AF, 0, NONE)}
+               Obj(<<P("a", AnyInt, TRUE), P("c", Self, FALSE)>>, AF, 0, NONE),
+               \* recursion where the recursive member is declared before the only member that carries a
+               \* constraint (whether a type needs validation at all is computed by walking the type graph,
+               \* cutting at the type under way), directly and through an array
+               Obj(<<P("a", Self, FALSE), P("b", IntS(10, NONE, FALSE, FALSE, NONE), TRUE)>>, AF, 0, NONE),
+               Obj(<<P("a", Arr(Self, 0, NONE, FALSE), FALSE), P("b", Str(2, NONE, ""), TRUE)>>, AF, 0, NONE)}
 ObjA == Obj(<<P("a", AnyStr, TRUE)>>, AF, 0, NONE)
 ObjB == Obj(<<P("b", AnyInt, TRUE)>>, AF, 0, NONE)
 ObjAo == Obj(<<P("a", AnyStr, TRUE)>>, AT, 0, NONE)
@@ -272,6 +280,8 @@ ObjBo == Obj(<<P("b", AnyInt, TRUE)>>, AT, 0, NONE)
 SumSchemas == {OneOf(<<AnyStr, AnyInt>>),
                \* variants told apart by their required member only: an instance with both is in both
                OneOf(<<ObjAo, ObjBo>>), OneOf(<<Obj(<<P("a", AnyStr, TRUE), P("c", Bool, FALSE)>>, AT, 0, NONE), Obj(<<P("b", AnyInt, TRUE), P("c", Bool, FALSE)>>, AT, 0, NONE)>>),
+               \* three variants that all declare one common member next to their own required one
+               OneOf(<<Obj(<<P("a", AnyStr, TRUE), P("c", Bool, FALSE)>>, AT, 0, NONE), Obj(<<P("b", AnyInt, TRUE), P("c", Bool, FALSE)>>, AT, 0, NONE), Obj(<<P("d", AnyInt, TRUE), P("c", Bool, FALSE)>>, AT, 0, NONE)>>),
                \* allOf over primitives: every bound of every member applies
                AllOf(<<IntS(NONE, 30, FALSE, TRUE, NONE), IntS(0, NONE, FALSE, FALSE, NONE)>>), AllOf(<<IntS(10, NONE, TRUE, FALSE, NONE), IntS(NONE, 30, FALSE, FALSE, NONE)>>),
                AllOf(<<Num(NONE, 15, FALSE, TRUE, NONE), Num(5, NONE, TRUE, FALSE, NONE)>>),
@@ -294,7 +304,10 @@ FmtSchemas == {Fmt("string", f) : f \in StrFormats} \cup {Fmt("integer", f) : f 
               \cup {Nullable(Fmt("string", "date-time")), Arr(Fmt("string", "date"), 0, NONE, FALSE), Arr(Fmt("string", "uuid"), 0, 2, TRUE),
                     Obj(<<P("a", Fmt("string", "date-time"), FALSE), P("b", Fmt("integer", "unix-seconds"), FALSE)>>, AF, 0, NONE),
                     Obj(<<P("a", Nullable(Fmt("string", "duration")), TRUE)>>, AF, 0, NONE), Obj(<<>>, Fmt("string", "time"), 0, NONE),
-                    OneOf(<<Fmt("integer", "int64"), Fmt("string", "uuid")>>), Arr(Fmt("string", "duration"), 0, NONE, FALSE)}
+                    OneOf(<<Fmt("integer", "int64"), Fmt("string", "uuid")>>), Arr(Fmt("string", "duration"), 0, NONE, FALSE),
+                    \* an optional number and an optional number-as-text in one object (both are held as a Go float64 behind an optional wrapper)
+                    Obj(<<P("a", Fmt("string", "float64"), FALSE), P("b", AnyNum, FALSE)>>, AF, 0, NONE),
+                    Obj(<<P("a", AnyNum, FALSE), P("b", Nullable(Fmt("string", "float64")), FALSE), P("c", Nullable(AnyNum), TRUE)>>, AF, 0, NONE)}
 RefSchemas == {Obj(<<P("a", Ref("ArrN"), TRUE), P("b", Ref("ArrS"), FALSE)>>, AF, 0, NONE), Arr(Ref("ArrN"), 0, NONE, FALSE), Arr(Ref("ArrS"), 0, NONE, FALSE),
                Obj(<<>>, Ref("ArrN"), 0, NONE), Obj(<<P("a", Ref("ArrM"), FALSE), P("c", Ref("StrN"), TRUE)>>, AF, 0, NONE),
                Obj(<<P("a", Ref("StrN"), FALSE), P("b", Ref("En"), FALSE), P("c", Ref("Dt"), FALSE)>>, AF, 0, NONE),
@@ -318,6 +331,12 @@ Objects == {O(<<>>)} \cup {O(<< <<k, x>> >>) : k \in Keys, x \in Leaves}
            \cup {O(<< <<"a", O(<< <<"b", y>> >>)>> >>) : y \in {N(10), S(<<"a">>), Null}} \cup {O(<< <<"a", O(<<>>)>> >>), O(<< <<"a", A(<<N(10), N(10)>>)>> >>), O(<< <<"a", A(<<>>)>> >>)}
            \cup {O(<< <<"a", N(10)>>, <<"c", O(<< <<"a", y>> >>)>> >>) : y \in {N(20), S(<<"a">>)}} \cup {O(<< <<"a", N(10)>>, <<"c", O(<< <<"a", N(20)>>, <<"c", O(<< <<"a", N(30)>> >>)>> >>)>> >>)}
            \cup {O(<< <<"a", S(<<"a">>)>>, <<"b", N(10)>>, <<"c", B(TRUE)>> >>), O(<< <<"a", S(<<"a">>)>>, <<"b", N(10)>>, <<"c", N(10)>> >>)}
+           \* nested values that break a constraint one, two and three levels down (and their valid twins)
+           \cup {O(<< <<"a", O(<< <<"b", y>> >>)>>, <<"b", N(10)>> >>) : y \in {N(5), N(10)}}
+           \cup {O(<< <<"a", O(<< <<"a", O(<< <<"b", y>> >>)>>, <<"b", N(20)>> >>)>>, <<"b", N(10)>> >>) : y \in {N(5), N(10)}}
+           \cup {O(<< <<"a", A(<<O(<< <<"b", y>> >>)>>)>>, <<"b", S(<<"a", "a">>)>> >>) : y \in {S(<<"a">>), S(<<"a", "b">>)}}
+           \cup {O(<< <<"a", A(<<O(<< <<"a", A(<<O(<< <<"b", y>> >>)>>)>>, <<"b", S(<<"a", "a">>)>> >>)>>)>>, <<"b", S(<<"a", "a">>)>> >>) : y \in {S(<<"a">>), S(<<"a", "b">>)}}
+           \cup {O(<< <<"b", N(10)>>, <<"c", B(TRUE)>> >>), O(<< <<"c", B(TRUE)>>, <<"a", S(<<"a">>)>> >>)}
 DiscInsts == {O(<< <<"c", S(<<"a">>)>> >>), O(<< <<"c", S(<<"a">>)>>, <<"b", N(10)>> >>), O(<< <<"c", S(<<"a">>)>>, <<"a", N(10)>>, <<"b", N(20)>> >>), O(<< <<"b", N(10)>>, <<"c", S(<<"a">>)>> >>),
               O(<< <<"c", S(<<"a">>)>>, <<"b", S(<<"a">>)>> >>), O(<< <<"c", S(<<"b">>)>> >>), O(<< <<"c", S(<<"b">>)>>, <<"a", S(<<"a">>)>> >>), O(<< <<"c", S(<<"b">>)>>, <<"b", N(10)>> >>),
               O(<< <<"c", S(<<"e">>)>> >>), O(<< <<"a", O(<< <<"c", S(<<"a">>)>>, <<"b", N(10)>> >>)>> >>), O(<< <<"a", O(<< <<"c", S(<<"b">>)>>, <<"a", S(<<"a">>)>> >>)>> >>)}
